@@ -24,7 +24,7 @@ RULE = ("region-exhaustive: all 9x216 coordinate x adjacency-list configurations
 ASSUMPTIONS = ["order and orientation of adjacency entries are the only permitted randomness (compared as multisets)",
                "Forks steps are the solution's forking points incl. both ends (rule 'more than one onward choice')"]
 NSHARDS = {"quick": 16, "thorough": 16}
-THRESHOLDS = {"quick": {"c06:adj-configs": 1944, "c06:path-configs": 9072, "c06:full:LatticeMaze": 200, "c06:full:TargetedLatticeMaze": 200,
+THRESHOLDS = {"quick": {"c06:adj-configs": 1944, "c06:element-level-answers-edited-by-caller": 2000, "c06:path-configs": 9072, "c06:full:LatticeMaze": 200, "c06:full:TargetedLatticeMaze": 200,
                         "c06:full:SolvedMaze": 400, "c06:pairwise-covering-configs": 300, "c06:pairs-covered-permille": 1000,
                         "c06:isolated-cells": 300, "c06:one-cell-solution": 200, "c06:forks-on-route": 500,
                         **{f"c06:delim:{d}": 100 for d in td.DELIMS}, "c06:relative:LEFT": 100, "c06:relative:RIGHT": 100,
@@ -266,6 +266,30 @@ def run(ctx):
                         check_path(ctx, lead, steps, sol, g, p, mech + "/path", case)
                     if g.n_edges():
                         ctx.nontrivial("full", ts.name_of(p), cl, kind, s, e)
+                    if kind == "SolvedMaze" and j % 2 == 0:
+                        # what the element-level tokenizers hand back belongs to the caller (who wraps it in delimiters, pads it,
+                        # trims it - in place); the equal maze tokenized next is judged as usual
+                        ps = tok.prompt_sequencer
+                        for el_name, arg in (("path_tokenizer", maze), ("adj_list_tokenizer", maze), ("target_tokenizer", [np.array(e)])):
+                            el = getattr(ps, el_name, None)
+                            if el is None:
+                                continue
+                            try:
+                                part = el.to_tokens(arg, ps.coord_tokenizer)
+                            except Exception:  # noqa: BLE001
+                                ctx.tally("c06:element-level-call-refused(not judged)")
+                                continue
+                            if isinstance(part, list):
+                                part.insert(0, "<PATH_START>"); part.extend(["<PATH_END>", "<PADDING>", "<PADDING>"])
+                                if len(part) > 6:
+                                    del part[2:4]
+                                ctx.tally("c06:element-level-answers-edited-by-caller")
+                        try:
+                            raw = tok.to_tokens(maze)
+                            if isinstance(raw, list):
+                                raw.reverse(); raw.append("<PADDING>")
+                        except Exception:  # noqa: BLE001
+                            pass
                 except td.DecodeError as ex:
                     ctx.violation(f"{mech}/undecodable", f"{ex}; tokens {toks[:50]}", case)
                 except Exception as ex:  # noqa: BLE001
